@@ -473,8 +473,8 @@ func (t *wTr) act(s ast.Stmt) (string, error) {
 	return "", t.fail(s, fmt.Sprintf("%T", s))
 }
 
-// walker: func (t *IncrementalTrack) name(list []ast.X, fset *token.FileSet) {
-//   for _, v := range list { if v == nil { continue }; switch w := v.(type) { … } } }
+//	walker: func (t *IncrementalTrack) name(list []ast.X, fset *token.FileSet) {
+//	  for _, v := range list { if v == nil { continue }; switch w := v.(type) { … } } }
 func translateWalker(fd *ast.FuncDecl) (string, error) {
 	t := &wTr{env: map[string]string{}, posOf: map[string]string{}, okOf: map[string]string{}}
 	if fd.Recv == nil || len(fd.Recv.List) != 1 || len(fd.Recv.List[0].Names) != 1 {
@@ -790,8 +790,8 @@ func (t *wTr) cact(s ast.Stmt) (string, error) {
 	return "", t.fail(s, fmt.Sprintf("%T", s))
 }
 
-// func (t *IncrementalTrack) processControlStatements(node ast.Node, fset *token.FileSet) {
-//   ast.Inspect(node, func(n ast.Node) bool { if n == nil { return false }; var changed bool; switch n := n.(type) {…}; return true }) }
+//	func (t *IncrementalTrack) processControlStatements(node ast.Node, fset *token.FileSet) {
+//	  ast.Inspect(node, func(n ast.Node) bool { if n == nil { return false }; var changed bool; switch n := n.(type) {…}; return true }) }
 func translateInspector(fd *ast.FuncDecl) (string, error) {
 	name := fd.Name.Name
 	t := &wTr{env: map[string]string{}, posOf: map[string]string{}, okOf: map[string]string{}}
